@@ -197,6 +197,69 @@ int main(int argc, char **argv) {
             log_be("bits", u, 8);
             log_out(before);
             vh_end();
+        } else if (vh_is("WSB")) { /* WSB bytes|text start step n : a string of any size, described instead of logged (CborBig.tla) */
+            const char *k = vh_args(1);
+            unsigned a = (unsigned)vh_argu(2), s = (unsigned)vh_argu(3);
+            size_t n = (size_t)vh_argu(4);
+            uint8_t *p = malloc(n ? n : 1);
+            for (size_t i = 0; i < n; ++i) {
+                p[i] = (uint8_t)(a + i * s);
+            }
+            struct aws_byte_cursor c = aws_byte_cursor_from_array(p, n);
+            size_t before = enc_len();
+            if (!strcmp(k, "bytes")) {
+                aws_cbor_encoder_write_bytes(enc, c);
+            } else {
+                aws_cbor_encoder_write_text(enc, c);
+            }
+            struct aws_byte_cursor all = aws_cbor_encoder_get_encoded_data(enc);
+            size_t app = all.len >= before ? all.len - before : 0;
+            size_t hl = app >= n ? app - n : app; /* what precedes the last n appended bytes */
+            int bodyok = app >= n && (n == 0 || memcmp(all.ptr + all.len - n, p, n) == 0);
+            free(p);
+            long long pat[3] = {(long long)(a & 255u), (long long)(s & 255u), (long long)n};
+            vh_begin("WriteBig");
+            vh_str("k", k);
+            vh_ints("pat", pat, 3);
+            vh_bytes("head", all.ptr + before, hl > 12 ? 12 : hl);
+            vh_int("bodyok", bodyok);
+            vh_int("applen", (long long)app);
+            vh_int("len", (long long)all.len);
+            vh_end();
+        } else if (vh_is("POPB")) { /* POPB d : the next item, which the script knows to be a string, by its own type */
+            int d = dec_id(1);
+            enum aws_cbor_type t = AWS_CBOR_TYPE_UNKNOWN;
+            struct aws_byte_cursor c = {0};
+            int rc = aws_cbor_decoder_peek_type(dec[d], &t);
+            const char *k = "bytes";
+            if (rc == 0) {
+                if (t == AWS_CBOR_TYPE_TEXT) {
+                    k = "text";
+                    rc = aws_cbor_decoder_pop_next_text_val(dec[d], &c);
+                } else {
+                    rc = aws_cbor_decoder_pop_next_bytes_val(dec[d], &c);
+                }
+            }
+            long long pat[3] = {0, 0, 0};
+            int patok = 0;
+            if (rc == 0) {
+                unsigned a = c.len >= 1 ? c.ptr[0] : 0, s = c.len >= 2 ? (unsigned)(uint8_t)(c.ptr[1] - c.ptr[0]) : 0;
+                patok = 1;
+                for (size_t i = 0; i < c.len; ++i) {
+                    patok &= c.ptr[i] == (uint8_t)(a + i * s);
+                }
+                pat[0] = a;
+                pat[1] = s;
+                pat[2] = (long long)c.len;
+            }
+            vh_begin("PopBig");
+            vh_int("d", d);
+            vh_rc(rc);
+            vh_str("k", k);
+            vh_ints("pat", pat, 3);
+            vh_int("patok", patok);
+            vh_int("rem", (long long)aws_cbor_decoder_get_remaining_length(dec[d]));
+            vh_end();
         } else if (vh_is("ERESET")) {
             aws_cbor_encoder_reset(enc);
             vh_begin("EncReset");
